@@ -612,6 +612,7 @@ class Tuner:
                         self.trial_backend.stop_trial(trial_id=trial_id, result=result)
                     self.scheduler.on_trial_remove(trial=trial)
                     done_trials[trial_id] = (trial, status)
+                    trial_status_dict[trial_id] = (trial, status)
                     self.trials_scheduler_stopped.add(trial_id)
 
                 elif decision == SchedulerDecision.PAUSE:
@@ -619,6 +620,7 @@ class Tuner:
                     self.trial_backend.pause_trial(trial_id=trial_id, result=result)
                     self.scheduler.on_trial_remove(trial=trial)
                     done_trials[trial_id] = (trial, status)
+                    trial_status_dict[trial_id] = (trial, status)
 
         for trial_id, (trial, status) in trial_status_dict.items():
             # Status "completed", "stopped" and "failed" are signaled to scheduler.
